@@ -32,6 +32,11 @@ def printed_tokens(node):
             par = getattr(n, "_parent", None)
             if isinstance(par, ast.Expr):
                 continue
+            # a constant that is only tested against (`name.startswith("unnamed.")`, `x == "..."`) is not printed
+            if isinstance(par, ast.Call) and isinstance(par.func, ast.Attribute) and par.func.attr in ("startswith", "endswith", "removeprefix", "removesuffix", "split", "rsplit", "partition", "find", "index", "count") and n in par.args:
+                continue
+            if isinstance(par, ast.Compare):
+                continue
             for t in re.findall(r"[^\w\s]+", n.value):
                 toks.append((t, n))
     return toks
@@ -46,6 +51,33 @@ def r2(p, rep):
     except NotLiteral as e:
         raise AnalysisError(f"unrecognised idiom: parse._literals is not a literal table ({e})") from e
     lits = set(literals)
+    # punctuation that is part of a TOKEN the lexer accepts as a whole: literal characters of the regexes it tests
+    # tokens with (`name=number` through `([a-zA-Z_]..)=([0-9]+)` reads `=`)
+    import re._parser as _rp
+
+    def regex_literals(tree_):
+        out_ = set()
+        for op, av in tree_:
+            if str(op) == "LITERAL" and not (chr(av).isalnum() or chr(av) == "_" or chr(av).isspace()):
+                out_.add(chr(av))
+            elif str(op) == "SUBPATTERN":
+                out_ |= regex_literals(av[3])
+            elif str(op) in ("MAX_REPEAT", "MIN_REPEAT"):
+                out_ |= regex_literals(av[2])
+            elif str(op) == "BRANCH":
+                for alt in av[1]:
+                    out_ |= regex_literals(alt)
+        return out_
+
+    for st in parse.tree.body:
+        if isinstance(st, ast.Assign) and isinstance(st.value, ast.Call) and norm(st.value.func) in ("re.compile", "compile") and st.value.args and isinstance(st.value.args[0], ast.Constant) and isinstance(st.value.args[0].value, str):
+            nm = st.targets[0].id if isinstance(st.targets[0], ast.Name) else None
+            used = nm and any(isinstance(c, ast.Call) and isinstance(c.func, ast.Attribute) and c.func.attr == "fullmatch" and norm(c.func.value) == nm for c in ast.walk(parse.tree))
+            if used:
+                try:
+                    lits |= regex_literals(_rp.parse(st.value.args[0].value))
+                except Exception:
+                    pass
 
     def lexes(tok):
         """Can `tok` be segmented into literals (greedy segmentation over the prefix-free table)?"""
